@@ -1,11 +1,19 @@
 import Qx.Driver.Proto
 import Qx.Driver.XmlOps
+import Qx.Driver.ScalarOps
+import Qx.Driver.CodecOps
 /-! C01/C02 driver: dispatches op lines by prefix to the tier stepper that owns them. -/
 open Qx.Driver
 
 def stepLine (s : Unit) (line : String) : Unit × String :=
   match XmlOps.step line with
   | some out => (s, out)
-  | none => (s, "bad-op")
+  | none =>
+    match ScalarOps.step line with
+    | some out => (s, out)
+    | none =>
+      match CodecOps.step line with
+      | some out => (s, out)
+      | none => (s, "bad-op")
 
 def main : IO Unit := run () stepLine
